@@ -113,7 +113,7 @@ pub fn battery(data: &[u8]) -> Report {
         if let Some(Ok(p)) = b.run("table_provider(i)", || fd.table_provider(idx)) {
             b.run("table_tags/table_data", || {
                 if let Some(tags) = p.table_tags() {
-                    for t in tags {
+                    for t in bounded_tags(tags) {
                         let _ = p.table_data(t);
                     }
                 }
@@ -130,8 +130,7 @@ pub fn battery(data: &[u8]) -> Report {
     };
     let tags: Vec<u32> = b
         .run("table_tags/table_data", || {
-            let mut tags = provider.table_tags().unwrap_or_default();
-            tags.sort();
+            let tags = bounded_tags(provider.table_tags().unwrap_or_default());
             for t in &tags {
                 let _ = provider.table_data(*t).map(|d| d.map(|d| d.len()));
                 let _ = provider.has_table(*t);
@@ -444,4 +443,21 @@ fn rewriting(b: &mut Battery<'_>, provider: &DynamicFontTableProvider<'_>, tags:
             }
         }
     }
+}
+
+
+/// A corrupt numTables makes `table_tags` return up to 65535 (garbage) tags; each `table_data` call is a
+/// search proportional to the directory, so querying *every* tag is quadratic in the harness, not in
+/// allsorts. Query the (sorted, distinct) first and last 256 tags: every real table of every seed is
+/// still queried (no seed has more than 40 tables) and the cost per entry point stays proportional to
+/// the input.
+fn bounded_tags(mut tags: Vec<u32>) -> Vec<u32> {
+    tags.sort();
+    tags.dedup();
+    if tags.len() > 512 {
+        let tail = tags.split_off(tags.len() - 256);
+        tags.truncate(256);
+        tags.extend(tail);
+    }
+    tags
 }
